@@ -93,10 +93,9 @@ def run_A(job, ob):
     def run():
         pb = kit.make_tab(dict(S=S, A=2, E=1, bs=2), 0)
         with symbolic():
+            pb.V0 = vec(0)   # the problem's own initial value estimates; the solver's real initialisation records them
             solver = kit.make_solver("pvi", pb, period=p, gamma=1.0 if one else 0.5, clear_value_history_on_convergence=job["clear"])
             pathx.CUR.assume(z3.And(eps > 0, gam > 0, gam < 1))
-            solver.values = vec(0)
-            solver.value_history[0] = vec(0)
             if not one:
                 solver.gamma = lift(gam)
             solver.epsilon = lift(eps)
@@ -127,8 +126,15 @@ def run_A(job, ob):
             return dict(convs=convs, n=cnt[0], it=st.info.iteration, vals=list(val_of(st.values)), hist=hist, hidx=solver.history_index,
                         reported=any("Convergence threshold reached" in m for m in msgs), thr=solver.conv_threshold, period=solver.period,
                         st_hist=st.info.value_history)
+    outs = []
     with shadowed():
-        outs = list(ex.explore(run))
+        try:
+            for o in ex.explore(run):
+                outs.append(o)
+        except zx.Unsupported as e:
+            # more host paths than the explorer's budget (the unchanged loop has at most 2 per sweep): what was explored is
+            # still decided, the rest is reported as not covered
+            ob.inconclusive.append({"obligation": "path-exploration", "reason": str(e), "solver_s": 0})
     ob.extra["paths"] = len(outs)
     stops = set()
     for pi_, o in enumerate(outs):
